@@ -130,8 +130,10 @@ def known_signature(h, ev):
         return False
     return True
 
-def validate(res, wd, name, hists, lines, kf, allow_known, tolerant=False):
-    """concatenate the histories (reset between them) and let TLC judge them against TupleSetAbs"""
+def validate(res, wd, name, hists, lines, kf, allow_known, tolerant=False, depth=0):
+    """concatenate the histories (reset between them) and let TLC judge them against TupleSetAbs.
+    allow_known: the family inserts negative keys, deviations matching the listed finding's signature are KNOWN-FINDING.
+    tolerant: the histories are sequential, so an inexplicable insert result is reported and the trace continues."""
     events = []; owner = []
     for hi, h in enumerate(hists):
         events.append({"e": "reset"}); owner.append(hi)
@@ -139,64 +141,59 @@ def validate(res, wd, name, hists, lines, kf, allow_known, tolerant=False):
             events.append(e); owner.append(hi)
     if not events:
         return
-    acc, consumed, r = tracecheck.validate("TupleSetAbsTrace", events, wd, name, constants="CONSTANT Clients = {1, 2, 3, 4, 5, 6, 7, 8}\nCONSTANT Tolerant = %s" % ("TRUE" if tolerant else "FALSE"),
-                                           timeout=2400, heap="12g")
-    res.count("trace_events", len(events))
+    acc, consumed, r = tracecheck.validate("TupleSetAbsTrace", events, wd, name, timeout=2400, heap="12g",
+                                           constants="CONSTANT Clients = {1, 2, 3, 4, 5, 6, 7, 8}\nCONSTANT Tolerant = %s"
+                                           % ("TRUE" if tolerant else "FALSE"))
+    res.count("trace_events", len(events) if acc else consumed)
     if acc is None:
         res.infra_errors.append("trace validation %s failed to run: %s" % (name, str(r["error"])[-800:])); return
     res.add_tlc(r)
-    # answers of queries that differ from the set model (the trace continues after them)
-    mism = {}
+    listed = known.is_listed(kf, PID, KNOWN_ID)
+    # deviations TLC reported while continuing the trace: (event number, what the set model says)
+    devs = {}
     for m in re.finditer(r'<<"MISMATCH", (\d+), (.*)>>', r["out"]):
-        mism.setdefault(int(m.group(1)), m.group(2))
-    bad_hist = set()
-    known_hits = {}
-    for l, exp in sorted(mism.items()):
+        devs.setdefault(int(m.group(1)), m.group(2))
+    blocked = None
+    if not acc:   # an insert return that no linearization explains: the trace stops there
+        blocked = min(consumed, len(events) - 1)
+        devs[blocked + 1] = "no linearization of the overlapping insert calls explains this result"
+    bad_hist = set(); known_hits = {}
+    for l, exp in sorted(devs.items()):
         hi = owner[l - 1]; h = hists[hi]; ev = events[l - 1]
         if ev["e"] in OUTSIDE:
             # lower_bound / upper_bound are not named by the property statement: deviations are reported, never a verdict
             nobs = res.cov.get("observations_outside_property", 0)
             res.count("observations_outside_property")
             if nobs < 3:
-                print("OBSERVATION property=C27 (outside the property statement, no verdict) %s answered %s, the ordered-set model says %s; "
-                      "job %r" % (ev["e"] + "_bound" + str(ev["t"]), ev["r"], exp, lines[h["line"]]), flush=True)
+                print("OBSERVATION property=C27 (outside the property statement, no verdict) %s_bound(%s) answered %s, the ordered-set "
+                      "model says %s; job %r" % (ev["e"], ev["t"], ev["r"], exp, lines[h["line"]]), flush=True)
                 res.cov.setdefault("observation_samples", []).append({"query": ev, "expected": exp, "job": lines[h["line"]]})
             continue
-        if allow_known and known_signature(h, ev) and known.is_listed(kf, PID, KNOWN_ID):
+        if allow_known and listed and known_signature(h, ev):
             known_hits.setdefault(hi, []).append((ev, exp))
             continue
         if hi in bad_hist:
             continue
         bad_hist.add(hi)
         calls = [e for e in h["events"] if e["e"] in ("call", "ret")]
-        res.violations.append(("history of the real Trie rejected by spec/TupleSetAbs.tla: query %s answered differently from the set model "
-                               "(expected %s); job %r schedule %r; insert history %s"
-                               % (ev, exp, lines[h["line"]], h["label"], calls[:40]),
+        res.violations.append(("history of the real Trie rejected by spec/TupleSetAbs.tla at event %s: the set model says %s; job %r "
+                               "schedule %r; insert history %s" % (ev, exp, lines[h["line"]], h["label"], calls[:40]),
                                _save(wd, "rejected_%s_%d" % (name, hi), [lines[h["line"]]])))
-    if not acc:
-        # an insert return that no linearization explains (or a query during an insertion)
-        hi = owner[min(consumed, len(events) - 1)]; h = hists[hi]
-        lo = max(0, consumed - 8)
-        res.violations.append(("history of the real Trie rejected by spec/TupleSetAbs.tla at event %d %s: no linearization of the insert "
-                               "calls explains it (job %r schedule %r; preceding events %s)"
-                               % (consumed + 1, events[min(consumed, len(events) - 1)], lines[h["line"]], h["label"], events[lo:consumed]),
-                               _save(wd, "rejected_%s_%d" % (name, hi), [lines[h["line"]]])))
-        res.cov["traces_validated_against_impl"] += hi
-    else:
-        res.cov["traces_validated_against_impl"] += len(hists) - len(bad_hist)
+    nvalid = (owner[blocked] if blocked is not None else len(hists))
+    res.cov["traces_validated_against_impl"] += nvalid - len([x for x in bad_hist if x < nvalid])
     if known_hits:
         res.count("histories_with_known_finding", len(known_hits))
         hi = sorted(known_hits)[0]; ev, exp = known_hits[hi][0]
-        msg = known.describe(kf, PID, KNOWN_ID) + " -- met in %d of %d negative-key histories; e.g. job %r: %s, set model says %s" % (
-            len(known_hits), len(hists), lines[hists[hi]["line"]], ev, exp)
-        if msg not in res.known:
-            res.known.append(msg)
-        kinds = {}
+        if not any(k.startswith(KNOWN_ID) for k in res.known):
+            res.known.append(known.describe(kf, PID, KNOWN_ID) + " -- e.g. job %r: %s, the set model says %s" % (
+                lines[hists[hi]["line"]], ev, exp))
+        kinds = res.cov.setdefault("known_finding_event_kinds", {})
         for v in known_hits.values():
             for ev, _ in v:
                 kinds[ev["e"]] = kinds.get(ev["e"], 0) + 1
-        res.cov["known_finding_query_kinds"] = kinds
-    return mism
+    if blocked is not None and owner[blocked] + 1 < len(hists) and depth < 40:
+        # the histories after the rejected one have not been judged yet
+        validate(res, wd, name + "_", hists[owner[blocked] + 1:], lines, kf, allow_known, tolerant, depth + 1)
 
 def report_exec_problems(res, wd, hists, crash, lines, what):
     for h in hists:
@@ -233,8 +230,8 @@ def gen_jobs(tier, rng):
     for fname, pool in (("small", SMALL), ("sparse", SPARSE), ("negative", NEG + SPARSE[:6] + [IMAX])):
         for k in range(n_rand if fname != "negative" else n_rand // 2):
             dim = rng.choice([1, 2, 2, 3, 4])
-            nt = rng.choice([1, 2, 2, 3, 3, 4])
-            progs = gen_prog(rng, dim, nt, rng.choice([1, 2, 3, 4]), pool)
+            nt = rng.choice([1, 2, 2, 3, 3, 4]) if fname != "negative" else 1      # the negative-key defect is sequential
+            progs = gen_prog(rng, dim, nt, rng.choice([1, 2, 3, 4]) if nt > 1 else rng.choice([2, 4, 7]), pool)
             steps = rng.choice([0, 20, 60, 150, 400])
             fam[fname].append("T %d %s %s R%d:%d:%d" % (dim, rng.choice("hn"), fmt_progs(progs), rng.randrange(1 << 30), steps,
                                                          rng.choice([0, 50, 80, 95])))
